@@ -236,6 +236,29 @@ CLASSIFIED = {
 }
 
 
+def _diagnostic_only(px, attr: str) -> bool:
+    """clause (c), decided generically: the attribute is read nowhere in the package except inside its own augmented
+    assignment or as an argument of a logging / logger call (statistics, progress messages)"""
+    reads = 0
+    for f in px.all_funcs:
+        pm = None
+        for x in ast.walk(f.node):
+            via_getattr = isinstance(x, ast.Call) and isinstance(x.func, ast.Name) and x.func.id in ("getattr", "hasattr") and len(x.args) >= 2 \
+                and isinstance(x.args[1], ast.Constant) and x.args[1].value == attr
+            if via_getattr or (((isinstance(x, ast.Attribute) and x.attr == attr) or (isinstance(x, ast.Name) and x.id == attr)) and isinstance(x.ctx, ast.Load)):
+                pm = pm or pyfront.parent_map(f.node)
+                st = pyfront.enclosing_stmt(x, pm)
+                reads += 1
+                if isinstance(st, ast.AugAssign) and attr in {getattr(t, "attr", None) or getattr(t, "id", None) for t in ast.walk(st.target)}:
+                    continue
+                if isinstance(st, ast.Assign) and len(st.targets) == 1 and isinstance(st.targets[0], ast.Attribute) and st.targets[0].attr == attr:
+                    continue   # x = x + 1 form
+                if isinstance(st, ast.Expr) and isinstance(st.value, ast.Call) and (ast.unparse(st.value.func).split(".")[0] in ("logging", "logger", "_logger", "log")):
+                    continue
+                return False
+    return True
+
+
 def rule_state(ctx, px):
     R = "R-C10-STATE"
     ctx.rule(
@@ -271,6 +294,10 @@ def rule_state(ctx, px):
         where = ", ".join(sorted({s[0].short for s in sites}))
         construct = f"{owner}.{name} written in {where}"
         cl = CLASSIFIED.get((owner, name))
+        if cl is None and _diagnostic_only(px, name):
+            ctx.ob(R, f.module.rel, construct, True, "[never read on a path to emitted text] every read of this attribute is its own update or an "
+                   "argument of a logging call", node.lineno)
+            continue
         if cl is None:
             ctx.ob(R, f.module.rel, construct, False,
                    f"unclassified state written inside the per-file call graph ({how}); it outlives the file being generated",
